@@ -329,9 +329,9 @@ def run_shards(ck, subcmd, rows, extra_args=None, shards=None, timeout=1800, tag
         try:
             _, err = p.communicate(timeout=timeout)
         except subprocess.TimeoutExpired:
-            p.kill()
-            _, err = p.communicate()
-            err = b'TIMEOUT ' + err
+            for q, _, _ in procs:
+                q.kill()
+            raise Infra('%s shard did not finish within %ds (machine overloaded?)' % (subcmd, timeout))
         rows_out = []
         if os.path.exists(outp):
             for line in open(outp):
